@@ -40,6 +40,23 @@ static uint32_t unhalves(const Json &j) { return ((uint32_t)j[(size_t)0].num() <
 static Json fh(float f) { return halves(f2u(f)); }
 static float hf(const Json &j) { return u2f(unhalves(j)); }
 
+// binary64 patterns as four 16-bit quarters [q3, q2, q1, q0] (q3 most significant)
+static inline uint64_t d2u(double d) { uint64_t u; memcpy(&u, &d, 8); return u; }
+static inline double u2d(uint64_t u) { double d; memcpy(&d, &u, 8); return d; }
+static Json dq(double d)
+{
+  const uint64_t u = d2u(d);
+  Json a = Json::array();
+  for (int i = 3; i >= 0; --i) a.push(Json((long long)((u >> (16 * i)) & 0xffffULL)));
+  return a;
+}
+static double qd(const Json &j)
+{
+  uint64_t u = 0;
+  for (size_t i = 0; i < 4; ++i) u = (u << 16) | (uint64_t)j[i].num();
+  return u2d(u);
+}
+
 // ---- integers as sign + limbs ---------------------------------------------------------------
 static Json zOf(bool neg, unsigned long long mag)
 {
@@ -499,6 +516,22 @@ static Json clampIT(const Json &arg)
   o.set("r", zOfT<T>(rm::clamp<T>(x, lo, hi)));
   return o;
 }
+template <typename T>
+static Json lerpIT(const Json &arg)
+{
+  const T a = zTo<T>(arg["a"]), b = zTo<T>(arg["b"]);
+  Json o = Json::object();
+  o.set("r", zOfT<T>(rm::lerp<T>(hf(arg["f"]), a, b)));
+  return o;
+}
+template <typename T>
+static Json latLerpIT(const Json &arg)
+{
+  const T r = rm::lerp<T>((float)arg["f"].num() / 8.f, (T)arg["a"].num(), (T)arg["b"].num());
+  Json o = Json::object();
+  o.set("v", Json((long long)r));
+  return o;
+}
 #define BY_INT_TYPE(FN, ty, arg)                                   \
   (ty == "i8"    ? FN<int8_t>(arg)                                 \
    : ty == "u8"  ? FN<uint8_t>(arg)                                \
@@ -516,6 +549,49 @@ static Json scaled(double r, double scale)
   const bool exact = s == std::floor(s) && std::fabs(s) < 9.0e15;
   o.set("v", exact ? Json((long long)s) : Json(s));
   o.set("exact", Json(exact));
+  return o;
+}
+
+// ---- the vec_t liftings of the kernels: every lane is reported --------------------------------
+// op: rcp | rcp_safe | madd | lerp | normalize; shape: "2", "3", "3a" (padded), "4"; v (, b, c): lanes as halves; f: factor
+template <typename V>
+static Json lanesOf(const V &v, int n)
+{
+  Json a = Json::array();
+  for (int i = 0; i < n; ++i) a.push(fh(v[i]));
+  return a;
+}
+template <typename V>
+static V vecFrom(const Json &j, int n)
+{
+  V v;
+  for (int i = 0; i < n; ++i) v[i] = hf(j[(size_t)i]);
+  return v;
+}
+template <typename V>
+static Json vecOp(const std::string &op, const Json &arg, int n)
+{
+  const V v = vecFrom<V>(arg["v"], n);
+  if (op == "rcp") return lanesOf(rm::rcp(v), n);
+  if (op == "rcp_safe") return lanesOf(rm::rcp_safe(v), n);
+  if (op == "lerp") return lanesOf(rm::lerp<V>(hf(arg["f"]), v, vecFrom<V>(arg["b"], n)), n);
+  throw std::runtime_error("unknown lane operation " + op);
+}
+static Json doVecLanes(const Json &arg)
+{
+  const std::string op = arg["op"].str(), sh = arg["shape"].str();
+  Json o = Json::object();
+  if (op == "madd") {  // vec.h offers madd for 3-vectors only
+    if (sh == "3a")
+      o.set("r", lanesOf(rm::madd(vecFrom<rm::vec3fa>(arg["v"], 3), vecFrom<rm::vec3fa>(arg["b"], 3), vecFrom<rm::vec3fa>(arg["c"], 3)), 3));
+    else
+      o.set("r", lanesOf(rm::madd(vecFrom<rm::vec3f>(arg["v"], 3), vecFrom<rm::vec3f>(arg["b"], 3), vecFrom<rm::vec3f>(arg["c"], 3)), 3));
+    return o;
+  }
+  if (sh == "2") o.set("r", vecOp<rm::vec2f>(op, arg, 2));
+  else if (sh == "3") o.set("r", vecOp<rm::vec3f>(op, arg, 3));
+  else if (sh == "3a") o.set("r", vecOp<rm::vec3fa>(op, arg, 3));
+  else o.set("r", vecOp<rm::vec4f>(op, arg, 4));
   return o;
 }
 
@@ -541,6 +617,9 @@ struct World
     if (a == "LatDru") { const std::string ty = arg["ty"].str(); return BY_INT_TYPE(latDruT, ty, arg); }
     if (a == "Dru") { const std::string ty = arg["ty"].str(); return BY_INT_TYPE(druT, ty, arg); }
     if (a == "ClampI") { const std::string ty = arg["ty"].str(); return BY_INT_TYPE(clampIT, ty, arg); }
+    if (a == "LerpI") { const std::string ty = arg["ty"].str(); return BY_INT_TYPE(lerpIT, ty, arg); }
+    if (a == "LatLerpI") { const std::string ty = arg["ty"].str(); return BY_INT_TYPE(latLerpIT, ty, arg); }
+    if (a == "VecLanes") return doVecLanes(arg);
     Json o = Json::object();
     if (a == "ClampF") {
       const float x = hf(arg["x"]), lo = hf(arg["lo"]), hi = hf(arg["hi"]);
@@ -552,6 +631,10 @@ struct World
         o.set("r", fh(rm::clamp<float>(x, lo, hi)));
       return o;
     }
+    if (a == "RcpSafeD") { o.set("r", dq(rm::rcp_safe(qd(arg["x"])))); return o; }
+    if (a == "ClampD") { o.set("r", dq(rm::clamp<double>(qd(arg["x"]), qd(arg["lo"]), qd(arg["hi"])))); return o; }
+    if (a == "Deg2RadD") { o.set("r", dq(rm::deg2rad<double>(qd(arg["x"])))); return o; }
+    if (a == "LerpD") { o.set("r", dq(rm::lerp<double>(hf(arg["f"]), qd(arg["a"]), qd(arg["b"])))); return o; }
     if (a == "Madd") { o.set("r", fh(rm::madd(hf(arg["a"]), hf(arg["b"]), hf(arg["c"])))); return o; }
     if (a == "Lerp") { o.set("r", fh(rm::lerp<float>(hf(arg["f"]), hf(arg["a"]), hf(arg["b"])))); return o; }
     if (a == "Sign") { o.set("r", fh(rm::sign(hf(arg["x"])))); return o; }
